@@ -168,6 +168,9 @@ def from_py(o):
     return V("other", s=type(o).__name__)
 
 
+RAWTEXT = ("script", "style")          # raw-text elements of HTML
+
+
 # ---- gamma: expressions and templates ------------------------------------------------------------------------
 def render_expr(e):
     k = e["k"]
@@ -262,11 +265,11 @@ def _att(n, v, var):
     return '%s = "%s"' % (n, "".join(_ref(c, 3) if c in '<>&"' else c for c in v))
 
 
-def render_nodes(nodes, exprs, void, var=0):
+def render_nodes(nodes, exprs, void, var=0, rawtext=False):
     out = []
     for nd in nodes:
         if nd["k"] == "text":
-            out.append(_text(nd["text"], var))
+            out.append(nd["text"] if rawtext else _text(nd["text"], var))
         elif nd["k"] == "raw":
             out.append(nd["text"])
         else:
@@ -278,7 +281,7 @@ def render_nodes(nodes, exprs, void, var=0):
             close = " />" if (var == 2 and is_void) else (" >" if var == 3 and atts else ">")
             out.append("<" + (" " if var != 3 else "  ").join([tag] + atts) + close)
             if not is_void:
-                out.append(render_nodes(nd["kids"], exprs, void, var))
+                out.append(render_nodes(nd["kids"], exprs, void, var, nd["tag"] in RAWTEXT))
                 out.append("</%s>" % tag)
     return "".join(out)
 
@@ -399,7 +402,6 @@ EMPTY_SNAP = {"l": [], "nls": 0, "nrs": 0, "rm": [], "g": [], "builtins": [], "r
 # ---- alpha: independent tokenizer of the output ------------------------------------------------------------------
 _NAME = re.compile(r"[A-Za-z][^\s/>]*")
 _ATT = re.compile(r"""\s*([^\s=/>]+)(?:\s*=\s*(?:"([^"]*)"|'([^']*)'|([^\s>]*)))?""")
-RAWTEXT = ("script", "style")
 
 
 def tokenize(doc: str):
@@ -458,7 +460,7 @@ def tokenize(doc: str):
                 k = doc.lower().find("</" + name, i)
                 k = n if k < 0 else k
                 if k > i:
-                    toks.append({"t": "text", "name": "", "atts": [], "s": doc[i:k], "src": "obs"})
+                    toks.append({"t": "rtext", "name": "", "atts": [], "s": doc[i:k], "src": "obs"})
                 i = k
         else:
             text("<")
@@ -475,7 +477,7 @@ def canonical(toks):
             out.append("</%s>" % t["name"])
         elif t["t"] == "text":
             out.append(html.escape(t["s"], quote=False))
-        else:
+        else:                       # raw (comment, declaration) and rtext (script/style content): as written
             out.append(t["s"])
     return "".join(out)
 
